@@ -4,7 +4,7 @@ profile = "functional": entries in the property's domain (line numbers < 2^32-1,
 profile = "safety":     NO precondition on entry values (C13): overflow, bounds, termination only.
 """
 from vf.unit import Unit
-from .common import HEADER, FOOTER, contract, extract_struct, extract_struct_priv
+from .common import CLONE_STACKFRAME, HEADER, FOOTER, contract, extract_struct, extract_struct_priv
 
 
 def build(profile="functional"):
@@ -13,7 +13,8 @@ def build(profile="functional"):
     u.raw(HEADER, "header")
     u.raw(contract("std_specs.rs"), "std_specs")
     st = u.source("src/stacktrace.rs")
-    extract_struct(u, st, "StackFrame", derive="#[derive(Clone)]")
+    extract_struct(u, st, "StackFrame")
+    u.raw(CLONE_STACKFRAME, "glue")
     mp = u.source("src/mapper.rs")
     extract_struct_priv(u, mp, "MemberMapping")
     u.raw(contract("model.rs"), "model")
